@@ -80,8 +80,8 @@ def gen_case(rng, k, quick, kind=None):
         elif r < 0.70:
             # requests, also for areas of an older / larger size
             if rng.random() < 0.25:
-                # (x = width / y = height exactly would be the empty request F4 of C03: only in C02's malformed stream)
-                xs = [v for v in range(0, W + 4) if v != W]; ys = [v for v in range(0, H + 4) if v != H]
+                # (incl. x = width / y = height exactly: clipped to an empty request, ignored since d5a464d)
+                xs = list(range(0, W + 4)); ys = list(range(0, H + 4))
                 L.append("req %d %d %d %d %d %d" % (c, rng.choice([0, 1]), rng.choice(xs), rng.choice(ys),
                                                     rng.randint(1, 45), rng.randint(1, 35)))
             else:
